@@ -29,6 +29,7 @@ What is only STATED (`…_stmt`): the two statements that are FALSE of today's c
 all-or-none for answers 500), kept next to their counterexamples.
 -/
 import Kap.Proofs.C14Full
+import Kap.Model.C14Fault
 namespace Kap.Props.C14
 open Kap.C14
 
@@ -286,6 +287,61 @@ theorem template_delete_orphans_tasks :
     ((run Variant.fixed demoEnv orphan).store.tasks "b").map (fun t => (t.script, t.tmpl)) = some ("t0", "T") ∧
     (run Variant.fixed demoEnv orphan).store.assoc "T" "b" = false ∧
     (run Variant.fixed demoEnv orphan).store.tmpls "T" = some "td" := by decide
+
+/-! ### Storage faults (Kap/Model/C14Fault.lean: the k-th Update transaction of the request fails) -/
+
+/-- A fault in the FIRST transaction of a create leaves nothing behind and is answered 500 — for every state and
+request whose validation passes (the first transaction is tasks.Create). General, not a sample. -/
+theorem fault_in_first_transaction_of_create (env : Env) (fail : List String) (w : World) (id : String) (r : TaskReq)
+    (h0 : w.ntx = 0) :
+    (handleF env fail (some 1) w (.create id r)).1.view = w.view ∧
+    ((handleF env fail (some 1) w (.create id r)).2 = .bad ∨ (handleF env fail (some 1) w (.create id r)).2 = .fail) := by
+  simp only [handleF, createTaskF]
+  split
+  · exact ⟨note_view w _, Or.inl rfl⟩
+  · rename_i hn
+    split
+    · exact ⟨note_view w _, Or.inl rfl⟩
+    · split
+      · exact ⟨note_view w _, Or.inl rfl⟩
+      · rename_i t _
+        have hc : (createF ⟨w, some 1, false⟩ id t).2 = false ∧ (createF ⟨w, some 1, false⟩ id t).1.w.view = w.view := by
+          simp only [createF, hn, Bool.false_eq_true, if_false, FW.tx, h0]
+          simp
+        simp only [hc.1, Bool.not_false, if_true]
+        exact ⟨by show ((createF ⟨w, some 1, false⟩ id t).1.w.note _).view = _; rw [note_view]; exact hc.2, Or.inr trivial⟩
+
+def faultBase : List Req :=
+  [ ⟨.tcreate "T" "t0", [], none⟩, ⟨.tcreate "U" "t0", [], none⟩,
+    ⟨.create "a" { tmpl := "T", dbrps := ["db.rp"], status := some true }, [], none⟩ ]
+
+/-- A fault in Delete(old) during a rename is only logged: the request is answered 200 and BOTH IDs stay stored
+(finding crash-between-transactions, fault flavour; replayed by corpus/C14/fault-injection.ops). -/
+theorem fault_in_rename_keeps_both_ids :
+    (handleF demoEnv [] (some 2) (beginReq (run Variant.fixed demoEnv faultBase) none) (.update "a" { newId := "b" })).2 = .ok ∧
+    ((handleF demoEnv [] (some 2) (beginReq (run Variant.fixed demoEnv faultBase) none) (.update "a" { newId := "b" })).1.store.tasks "a").isSome = true ∧
+    ((handleF demoEnv [] (some 2) (beginReq (run Variant.fixed demoEnv faultBase) none) (.update "a" { newId := "b" })).1.store.tasks "b").isSome = true ∧
+    (handleF demoEnv [] (some 2) (beginReq (run Variant.fixed demoEnv faultBase) none) (.update "a" { newId := "b" })).1.exec "a" = false := by
+  decide
+
+/-- After 9eb6f45: an association error during "move to template U and disable" is answered 500, but the running
+state still follows the stored definition (stored disabled ⇒ stopped). -/
+theorem fault_in_association_still_stops_the_task :
+    (handleF demoEnv [] (some 2) (beginReq (run Variant.fixed demoEnv faultBase) none) (.update "a" { tmpl := "U", status := some false })).2 = .fail ∧
+    ((handleF demoEnv [] (some 2) (beginReq (run Variant.fixed demoEnv faultBase) none) (.update "a" { tmpl := "U", status := some false })).1.store.tasks "a").map (·.enabled) = some false ∧
+    (handleF demoEnv [] (some 2) (beginReq (run Variant.fixed demoEnv faultBase) none) (.update "a" { tmpl := "U", status := some false })).1.exec "a" = false := by
+  decide
+
+/-- NOT proved (tied by the correspondence run on every fault-free request, and on 600+ faulted requests per run):
+the fault semantics without a fault is the model, and the running-state invariant survives any single fault. -/
+def fault_semantics_conservative_stmt : Prop :=
+  ∀ (env : Env) (fail : List String) (w : World) (op : Op), faultable op = true →
+    (handleF env fail none w op).1.view = (handle Variant.fixed env fail w op).1.view ∧
+    (handleF env fail none w op).2 = (handle Variant.fixed env fail w op).2 ∧
+    (handleF env fail none w op).1.ntx = (handle Variant.fixed env fail w op).1.ntx
+
+def executing_implies_enabled_under_faults_stmt : Prop :=
+  ∀ (env : Env) (fail : List String) (k : Nat) (w : World) (op : Op), ExecInv w → ExecInv (handleF env fail (some k) w op).1
 
 /-! ### Non-vacuity -/
 
